@@ -23,8 +23,8 @@ func init() {
 }
 
 func runC03(r *vc.Run, replay string) {
-	r.Rule = "cases = (a) generated DML programs as in C01 (composite and non-integer keys emphasised) committed inside a global transaction; (b) SELECT ... FOR UPDATE inside a global transaction with the coordinator answering lockable / not lockable / failure, in autocommit and explicit-transaction use; (c) two global transactions whose statements overlap on rows, under scripted orders of their coordinator replies; oracle: every row made durable by a local commit is named (table, pk values) by the lock key of the BranchRegister that preceded that commit, the same row always has the same key text, locking reads return rows only after a lockable answer and release their local locks on conflict, and no row is committed while the coordinator's lock table has it held by another xid; distinct_nontrivial = distinct feature signatures of cases in which a lock key or a lock query was observed"
-	r.Assumptions = []string{"lock-key grammar: table:pk[_pk2...][,...];... (table compared case-insensitively, key components as a multiset)", "the fake coordinator keeps Seata's lock-table semantics: a key held by another xid refuses the registration"}
+	r.Rule = "cases = (a) generated DML programs as in C01 (composite and non-integer keys emphasised) committed inside a global transaction; (b) SELECT ... FOR UPDATE inside a global transaction with the coordinator answering lockable / not lockable / failure, in autocommit and explicit-transaction use, every fourth case writing the rows first so that registration and lock query of the same rows meet; key shapes int / varchar / composite / byte-valued; (c) two global transactions whose statements overlap on rows, under scripted orders of their coordinator replies; oracle: every row made durable by a local commit is named (table, pk values) by the lock key of the BranchRegister that preceded that commit, the same row always has the same key text, locking reads return rows only after a lockable answer and release their local locks on conflict, and no row is committed while the coordinator's lock table has it held by another xid; distinct_nontrivial = distinct feature signatures of cases in which a lock key or a lock query was observed"
+	r.Assumptions = []string{"lock-key grammar: table:pk[_pk2...][,...];... (table compared case-insensitively, key components as a multiset; a byte-valued key may be spelled as its text or in Go's %v form, but alike everywhere)", "the fake coordinator keeps Seata's lock-table semantics: a key held by another xid refuses the registration"}
 	var wg sync.WaitGroup
 	wg.Add(3)
 	go func() { defer wg.Done(); c03Programs(r) }()
@@ -61,7 +61,7 @@ func c03Programs(r *vc.Run) {
 		c := c01GenCase(rnd, i, kinds, "k")
 		if i%2 == 0 {
 			// emphasise composite and non-integer keys
-			pk := []string{"composite", "composite3", "varchar"}[rnd.Intn(3)]
+			pk := []string{"composite", "composite3", "varchar", "binary"}[rnd.Intn(4)]
 			c.Tables[0] = atGenTable(rnd, c.Tables[0].Name, pk, kinds, 2+rnd.Intn(2), 3+rnd.Intn(4), rnd.Bool())
 			// regenerate the program for the new table
 			c2 := c01GenCaseForTable(rnd, c.Name, c.Tables[0])
@@ -180,16 +180,9 @@ func c03JudgeProgram(r *vc.Run, env *atEnv, c *atCase, o *atOutcome, keyText map
 				row = ch.Before
 			}
 			want := def.PKValues(row)
-			wantSorted := append([]string{}, want...)
-			sort.Strings(wantSorted)
 			found := ""
 			for _, e := range entries {
-				if !strings.EqualFold(e.Table, def.Name) || len(e.PK) != len(want) {
-					continue
-				}
-				got := append([]string{}, e.PK...)
-				sort.Strings(got)
-				if strings.Join(got, "\x00") == strings.Join(wantSorted, "\x00") {
+				if strings.EqualFold(e.Table, def.Name) && c03KeyNames(def, row, e.PK) {
 					found = e.Text
 					break
 				}
@@ -233,7 +226,7 @@ func c03SelectForUpdate(r *vc.Run) {
 		n = v
 	}
 	for i := 0; i < n; i++ {
-		pk := []string{"int", "composite", "varchar", "composite3"}[rnd.Intn(4)]
+		pk := []string{"int", "composite", "varchar", "composite3", "binary"}[rnd.Intn(5)]
 		t := atGenTable(rnd, fmt.Sprintf("s%04dt", i), pk, atSafeKinds, 2, 3+rnd.Intn(3), false)
 		d := *t.Def
 		db.E.CreateTable(&d)
@@ -242,6 +235,12 @@ func c03SelectForUpdate(r *vc.Run) {
 		explicit := rnd.Bool()
 		many := rnd.Intn(3) == 0
 		params := rnd.Intn(4) != 0
+		bothForms := i%4 == 3
+		if bothForms {
+			// one local transaction writes the rows and then reads them with a locking select: registration and lock
+			// query of the same rows are both observed
+			mode, explicit = "lockable", true
+		}
 		var where string
 		var args []tval
 		if many {
@@ -276,7 +275,7 @@ func c03SelectForUpdate(r *vc.Run) {
 		if explicit {
 			steps = append(steps, gtxStep{Op: "begin", DB: "at"})
 		}
-		preDML := explicit && rnd.Intn(3) == 0
+		preDML := explicit && (bothForms || rnd.Intn(3) == 0)
 		if preDML {
 			// the same local transaction first writes exactly the rows the locking read will select
 			vc0 := t.valueCols()[0]
@@ -311,6 +310,38 @@ func c03SelectForUpdate(r *vc.Run) {
 		}
 		db.E.DropTable(t.Name)
 	}
+}
+
+// c03KeyNames: do the components of one lock-key entry name this row? The property fixes neither the order of the
+// components nor the spelling of byte-valued keys, so a byte string may appear as its text or in Go's %v rendering;
+// what it does demand - one text per row whatever the statement form - is checked where two texts meet.
+func c03KeyNames(def *mm.Table, row []interface{}, got []string) bool {
+	if len(got) != len(def.PK) {
+		return false
+	}
+	forms := [][]string{nil}
+	for _, i := range def.PK {
+		alts := []string{(&mm.Table{PK: []int{0}}).PKValues([]interface{}{row[i]})[0]}
+		if b, ok := row[i].([]byte); ok {
+			alts = append(alts, fmt.Sprintf("%v", b))
+		}
+		var next [][]string
+		for _, f := range forms {
+			for _, a := range alts {
+				next = append(next, append(append([]string{}, f...), a))
+			}
+		}
+		forms = next
+	}
+	g := append([]string{}, got...)
+	sort.Strings(g)
+	for _, f := range forms {
+		sort.Strings(f)
+		if strings.Join(f, "\x00") == strings.Join(g, "\x00") {
+			return true
+		}
+	}
+	return false
 }
 
 func featShape(f map[string]string) string {
@@ -391,22 +422,43 @@ func c03JudgeSFU(r *vc.Run, shape string, feat map[string]string, name string, t
 		}
 		// the query must name every returned row
 		if sel != nil {
+			queried := map[string]string{}
 			entries := parseLockKey(lq.Msg.S("lockKey"))
 			for _, mr := range sel.MatchedRows {
 				want := t.Def.PKValues(mr)
-				ws := append([]string{}, want...)
-				sort.Strings(ws)
 				ok := false
+				r.Count("locked_rows_checked_against_query", 1)
 				for _, e := range entries {
-					g := append([]string{}, e.PK...)
-					sort.Strings(g)
-					if strings.EqualFold(e.Table, t.Name) && strings.Join(g, "\x00") == strings.Join(ws, "\x00") {
+					if strings.EqualFold(e.Table, t.Name) && c03KeyNames(t.Def, mr, e.PK) {
 						ok = true
+						queried[strings.Join(want, "\x00")] = e.Text
 					}
 				}
 				if !ok {
 					viol("locked-row-not-queried", fmt.Sprintf("row %v was returned but the GlobalLockQuery key %q does not name it", want, clipStr(lq.Msg.S("lockKey"), 200)))
 					return
+				}
+			}
+			// the same transaction also wrote these rows: its registration and its lock query must spell each row alike,
+			// or a writer's lock and a reader's question never meet at the coordinator
+			for _, e := range evs {
+				if e.Msg == nil || e.Dir != "in" || e.Msg.Type != wire.TBranchRegister || e.TxName != name {
+					continue
+				}
+				for _, re := range parseLockKey(e.Msg.S("lockKey")) {
+					if !strings.EqualFold(re.Table, t.Name) {
+						continue
+					}
+					for _, mr := range sel.MatchedRows {
+						if !c03KeyNames(t.Def, mr, re.PK) {
+							continue
+						}
+						r.Count("key_texts_compared_across_forms", 1)
+						if qt := queried[strings.Join(t.Def.PKValues(mr), "\x00")]; qt != re.Text {
+							viol("inconsistent-key-text", fmt.Sprintf("row %s%v is registered as %q by the writing statement but asked about as %q by the locking read", t.Name, t.Def.PKValues(mr), re.Text, qt))
+							return
+						}
+					}
 				}
 			}
 		}
